@@ -722,6 +722,31 @@ func HandleUpdateUser(cc *hotline.ClientConn, t *hotline.Transaction) (res []hot
 			if err != nil {
 				return res
 			}
+
+			// Connected clients logged in as the edited account follow its new access level (and login) at once, as
+			// they do when the account is edited with SetUser.
+			for _, c := range cc.Server.ClientMgr.List() {
+				if c.Account.Login == accountToUpdate {
+					c.Account.Login = userLogin
+					c.Account.Access = acc.Access
+
+					res = append(res, hotline.NewTransaction(hotline.TranUserAccess, c.ID, hotline.NewField(hotline.FieldUserAccess, acc.Access[:])))
+
+					if c.Authorize(hotline.AccessDisconUser) {
+						c.Flags.Set(hotline.UserFlagAdmin, 1)
+					} else {
+						c.Flags.Set(hotline.UserFlagAdmin, 0)
+					}
+
+					cc.SendAll(
+						hotline.TranNotifyChangeUser,
+						hotline.NewField(hotline.FieldUserID, c.ID[:]),
+						hotline.NewField(hotline.FieldUserFlags, c.Flags[:]),
+						hotline.NewField(hotline.FieldUserName, c.UserName),
+						hotline.NewField(hotline.FieldUserIconID, c.Icon),
+					)
+				}
+			}
 		} else {
 			if !cc.Authorize(hotline.AccessCreateUser) {
 				return cc.NewErrReply(t, "You are not allowed to create new accounts.")
